@@ -138,7 +138,7 @@ func TestCtlEnumerate(t *testing.T) {
 	}
 	scopes := evid.Pick(
 		[]scope{{1, 3, 1}, {2, 2, 1}, {3, 2, 120}},
-		[]scope{{1, 4, 1}, {2, 3, 1}, {3, 2, 3}, {3, 3, 60}})
+		[]scope{{1, 4, 1}, {2, 3, 1}, {3, 2, 6}, {3, 3, 200}})
 	a := newAgg()
 	job := 0
 	for _, sc := range scopes {
